@@ -246,7 +246,11 @@ def build_manager(workdir):
     man = Manager.from_files(gro, *itps)
     for s, sp in SPECIES.items():
         end = chain_molecule(os.path.join(workdir, 'end' + s), s, sp['nE'], sp['hE'], (5.0, 5.0, 5.0), resname=s * 3, style=1)
-        man.add_end_molecule(end)
+        if s == 'A':
+            man.add_end_molecule(end)
+            _ = man.complete_correspondence, man.parse_restrictions(None)      # the manager is used once ...
+        else:
+            man.molecule_correspondence[s].end = end                            # ... before the other end is attached through its Alignment
     return man
 
 
